@@ -244,6 +244,15 @@ func (m *Master) run() int {
 	for i := range order {
 		order[i] = i
 	}
+	if only := os.Getenv("VERIF_ONLY"); only != "" { // development aid: only the tasks whose name contains this text
+		var keep []int
+		for _, i := range order {
+			if strings.Contains(tasks[i].Name, only) {
+				keep = append(keep, i)
+			}
+		}
+		order = keep
+	}
 	if m.Seed != 0 { // VERIF_SEED only permutes the order in which tasks are handed out
 		s := uint64(m.Seed)*6364136223846793005 + 1442695040888963407
 		for i := len(order) - 1; i > 0; i-- {
